@@ -10,7 +10,10 @@
 (* outside TLA+ (DESIGN.md C18).                                                                    *)
 EXTENDS Integers, TLC
 
-CONSTANTS MaxV      \* values and bounds of the exhaustive model are 0..MaxV
+CONSTANTS MaxV,      \* values of the exhaustive model are 0..MaxV, bounds MinV..MaxV
+          Below,     \* MinV = -Below (a prover may build for a window that starts below zero)
+          WidthOnly  \* TRUE: deviation - the verifier only checks c1 * c2 = g^(hi-lo+2), which ties the WIDTH of
+                     \* the prover's window but not its position (negative control; never on in the trace spec)
 
 VARIABLES lo, hi,     \* the verifier's range
           plo, phi,   \* the range the prover builds the proof for
@@ -19,12 +22,15 @@ VARIABLES lo, hi,     \* the verifier's range
           rounds,     \* challenge / response / check rounds carried out
           verdict     \* "none" | "accepted" | "rejected" : certainty(claim "in range") = 1.0 / 0.0
 vars == <<lo, hi, plo, phi, v, built, rounds, verdict>>
+MinV == 0 - Below
 
 In(x, a, b) == a <= x /\ x <= b
 ProductPositive == (v - plo + 1) * (phi - v + 1) > 0      \* what create_attest_pair can decompose
 SameRange == plo = lo /\ phi = hi
 
-Init == /\ lo \in 0..MaxV /\ hi \in lo..MaxV /\ plo \in 0..MaxV /\ phi \in plo..MaxV
+(* the prover's window is ANY window: wider, narrower, one bound moved, or the same width shifted  *)
+(* left / right by any offset (disjoint from, partially overlapping or equal to the verifier's)     *)
+Init == /\ lo \in MinV..MaxV /\ hi \in lo..MaxV /\ plo \in MinV..MaxV /\ phi \in plo..MaxV
         /\ v \in 0..MaxV
         /\ built = "no" /\ rounds = 0 /\ verdict = "none"
 
@@ -41,7 +47,10 @@ Round == /\ built = "yes" /\ rounds < 3
          /\ verdict' = "none"                    \* the aggregate changed: earlier scores are stale
          /\ UNCHANGED <<lo, hi, plo, phi, v, built>>
 
-Allowed == IF rounds >= 1 /\ SameRange /\ In(v, lo, hi) THEN {TRUE}          \* inside: accepted
+SameWidth == phi - plo = hi - lo
+Shifted   == SameWidth /\ ~SameRange
+Allowed == IF WidthOnly /\ rounds >= 1 /\ SameWidth /\ In(v, plo, phi) THEN {TRUE}   \* the deviation accepts
+           ELSE IF rounds >= 1 /\ SameRange /\ In(v, lo, hi) THEN {TRUE}     \* inside: accepted
            ELSE IF ~In(v, lo, hi) THEN {FALSE}                                \* outside: never accepted
            ELSE BOOLEAN                                                       \* the statement is silent
 Verdict(acc) == /\ built = "yes" /\ acc \in Allowed
